@@ -15,6 +15,7 @@ import (
 	"sync/atomic"
 	"testing"
 	"time"
+	"unsafe"
 
 	"pgregory.net/rapid"
 	"verifharness/vlib"
@@ -32,24 +33,63 @@ type c08Case struct {
 	Workers int     `json:"workers"`
 	Ops     []c08Op `json:"ops"`
 	Nb      uint32  `json:"nb,omitempty"` // value of the words next to the lock word
+	Place   string  `json:"place,omitempty"` // address class of the lock (c08Places)
 }
 
-// c08Box embeds the lock between other data, the way the kernel's allocator
+// c08Box puts the lock between other data, the way the kernel's allocator
 // keeps its mutex next to its counters: the lock word is the only memory a
 // lock operation may look at or change.
 type c08Box struct {
+	pre  *uint32
+	l    *Spinlock
+	post *uint32
+	far  *uint64
+	free func()
+}
+
+type c08Mem struct {
 	pre  uint32
 	l    Spinlock
 	post uint32
 	far  uint64
 }
 
-func c08NewBox(nb uint32) *c08Box {
-	return &c08Box{pre: nb, post: nb, far: uint64(nb)<<32 | uint64(nb)}
+// c08Places are the address classes a lock can live at: the Go heap (""), memory below 4 GiB
+// (upper half of the address all zero, as in the kernel's identity-mapped low memory), and an
+// address that is a multiple of 4 GiB (lower half all zero).
+var c08Places = []string{"", "", "", "hi32zero", "lo32zero"}
+
+func c08NewBox(nb uint32, place string) *c08Box {
+	var b *c08Box
+	switch place {
+	case "hi32zero":
+		g, err := vlib.NewGuarded(4096, true)
+		if err != nil || uint64(g.Addr())>>32 != 0 {
+			panic(fmt.Sprintf("VERIF-HARNESS: no memory below 4 GiB: %v", err))
+		}
+		a := g.Addr() + 2048
+		b = &c08Box{pre: (*uint32)(unsafe.Pointer(a - 4)), l: (*Spinlock)(unsafe.Pointer(a)), post: (*uint32)(unsafe.Pointer(a + 4)), far: (*uint64)(unsafe.Pointer(a + 8)), free: g.Free}
+	case "lo32zero":
+		var a uintptr
+		for k := uintptr(1); k < 0x7000 && a == 0; k++ {
+			if vlib.MapFixed(k<<32-4096, 2) == nil {
+				a = k << 32
+			}
+		}
+		if a == 0 {
+			panic("VERIF-HARNESS: no free address that is a multiple of 4 GiB")
+		}
+		b = &c08Box{pre: (*uint32)(unsafe.Pointer(a - 4)), l: (*Spinlock)(unsafe.Pointer(a)), post: (*uint32)(unsafe.Pointer(a + 4)), far: (*uint64)(unsafe.Pointer(a + 8)), free: func() { vlib.UnmapFixed(a-4096, 2) }}
+	default:
+		m := &c08Mem{}
+		b = &c08Box{pre: &m.pre, l: &m.l, post: &m.post, far: &m.far, free: func() {}}
+	}
+	*b.pre, *b.post, *b.far = nb, nb, uint64(nb)<<32|uint64(nb)
+	return b
 }
 
 func (b *c08Box) intact(nb uint32) *vlib.Failure {
-	if pre, post, far := atomic.LoadUint32(&b.pre), atomic.LoadUint32(&b.post), atomic.LoadUint64(&b.far); pre != nb || post != nb || far != uint64(nb)<<32|uint64(nb) {
+	if pre, post, far := atomic.LoadUint32(b.pre), atomic.LoadUint32(b.post), atomic.LoadUint64(b.far); pre != nb || post != nb || far != uint64(nb)<<32|uint64(nb) {
 		return vlib.Failf("lock operations changed memory next to the lock word: words before/after were %#x, now %#x / %#x / %#x", nb, pre, post, far)
 	}
 	return nil
@@ -70,8 +110,9 @@ func c08Run(c c08Case) (fail *vlib.Failure, blockedAcquires int) {
 	yieldFn = runtime.Gosched
 	defer func() { yieldFn = old }()
 
-	box := c08NewBox(c.Nb)
-	l := &box.l
+	box := c08NewBox(c.Nb, c.Place)
+	defer box.free()
+	l := box.l
 	reqs := make([]chan string, c.Workers)
 	done := make(chan c08Res, c.Workers*2)
 	var wg gosync.WaitGroup
@@ -283,6 +324,7 @@ func TestVerifC08(t *testing.T) {
 	rapid.Check(t, func(t *rapid.T) {
 		var c c08Case
 		c.Nb = rapid.SampledFrom(c08Neighbours).Draw(t, "neighbour-words")
+		c.Place = rapid.SampledFrom(c08Places).Draw(t, "place")
 		c.Workers = rapid.IntRange(1, 6).Draw(t, "workers")
 		n := rapid.IntRange(1, 30).Draw(t, "nops")
 		for i := 0; i < n; i++ {
@@ -293,6 +335,9 @@ func TestVerifC08(t *testing.T) {
 		}
 		fail, blocked := c08Run(c)
 		labels := []string{fmt.Sprintf("seq-workers=%d", c.Workers)}
+		if c.Place != "" {
+			labels = append(labels, "lock-address-"+c.Place)
+		}
 		if blocked > 0 {
 			labels = append(labels, "seq-acquire-issued-while-held")
 		}
@@ -330,6 +375,7 @@ type c08Prog struct {
 type c08Stress struct {
 	Progs []c08Prog `json:"progs"`
 	Nb    uint32    `json:"nb,omitempty"` // value of the words next to the lock word
+	Place string    `json:"place,omitempty"` // address class of the lock (c08Places)
 }
 
 type c08Record struct{ a, b, c, d uint64 }
@@ -349,8 +395,9 @@ func c08RunStress(c c08Stress) (fail *vlib.Failure, contention int64) {
 	yieldFn = runtime.Gosched
 	defer func() { yieldFn = old }()
 
-	box := c08NewBox(c.Nb)
-	l := &box.l
+	box := c08NewBox(c.Nb, c.Place)
+	defer box.free()
+	l := box.l
 	var (
 		holders  int32
 		counter  int // protected, non-atomic
@@ -463,6 +510,7 @@ func TestVerifC08Stress(t *testing.T) {
 	rapid.Check(t, func(t *rapid.T) {
 		var c c08Stress
 		c.Nb = rapid.SampledFrom(c08Neighbours).Draw(t, "neighbour-words")
+		c.Place = rapid.SampledFrom(c08Places).Draw(t, "place")
 		n := rapid.IntRange(2, 16).Draw(t, "workers")
 		for i := 0; i < n; i++ {
 			c.Progs = append(c.Progs, c08Prog{
